@@ -142,6 +142,8 @@ def run_impl(pid, tier):
         if cid % 397 == 0:
             res.sample({"impl": case["input"]["mods"][0]["impls"], "evals": case["input"]["mods"][0]["evals"],
                         "oracle": {k: oracle[k] for k in ("funcs", "evals", "tsingle", "esingle")}})
+    from . import execrig, execplan
+    execrig.apply(pl, res, lambda c: execplan.plan_impl(c, pid), payload, cov)
     cov.update({"evaluations": n_checked, "distinct_nontrivial": n_checked, "accepted_by_code": n_acc,
                 "rule": "every impl block / accessor declaration enumerated by TLC for MC_Impl replayed into pyxis; address literal, "
                         "fn-pointer type, argument order, return type and accessor shape read from the emitted code with syn; the host "
